@@ -469,8 +469,13 @@ def _case_size(case):
 # Generic flow for scheduler-driven (E1) scenarios
 # ----------------------------------------------------------------------------------------------
 
+class _Lines:
+    def __init__(self, fn):
+        self.model_lines = fn
+
+
 def e1_flow(chk, scen_name, model, props, gen, n_cases, keyfn=None, sched=True, engine='E1-detsched',
-            corpus=None, escalate_n=600):
+            corpus=None, escalate_n=600, extra_models=()):
     """corpus + generated cases -> monitors + trace validation; on a correspondence break without a
     monitor hit, explore the neighbourhood of the disagreeing cases for a failing input."""
     sys.path.insert(0, str(HARNESS))
@@ -483,6 +488,9 @@ def e1_flow(chk, scen_name, model, props, gen, n_cases, keyfn=None, sched=True, 
     chk.collect_monitors(results, props, keyfn)
     if model:
         chk.validate(model, scen, results)
+    for m2, lines_fn in extra_models:
+        # a second model fed from the same runs (its own events, its own driver)
+        chk.validate(m2, _Lines(lines_fn), results)
     for case, res in results[:200]:
         if scen.nontrivial(case, res):
             chk.sample(dict(case=case, events=res.get('events', [])[:60], out=res.get('out'), end=res.get('end')))
